@@ -13,8 +13,10 @@ PROPS_FILES = ["props/C13.v"]
 RULE = ("one case = one scripted session of a real client class on the virtual loop: a base session (connect refused "
         "once, pending 0.3 s, frames, second connect(), half a frame, send with suspending drain, EOF, reconnect, "
         "write error, reconnect, recovery tail) with one fault script (EOF | reset | write error | drain error | garbage "
-        "then EOF | refuse 3 then EOF | refuse 7 then reset | EByte 'Sorry,Limited') injected at EVERY event-loop step "
-        "position of the base session, x 4 clients x status-callback behaviour; non-trivial = the trace contains a "
+        "then EOF | well-framed frames whose decoding raises + a good frame + EOF | refuse 3 then EOF | refuse 7 then reset | EByte 'Sorry,Limited') injected at EVERY event-loop step "
+        "position of the base session, x 4 clients x status-callback behaviour; failing connection "
+        "attempts raise ConnectionRefusedError | OSError(EHOSTUNREACH/ENETUNREACH) | socket.gaierror | TimeoutError | RuntimeError | "
+        "ConnectionResetError | serial.SerialException (serial client), rotating with run number and VERIF_SEED; non-trivial = the trace contains a "
         "fault label; distinct by label sequence")
 TRUSTED = ["ClientLTS.v is a hand model of AsyncIOClient.connect/_receive_loop/send/close/_process_queue/_update_state, "
            "the four _receive_impl read behaviours and tenacity's AsyncRetrying/wait_exponential; tied to the code by the "
@@ -44,11 +46,13 @@ def fault_specs(ctx):
     for c in clients:
         for cb in (("ret", "slow", "raise", "slowraise") if thorough else ("ret", "slow")):
             base.append(vloop.spec(c, cb=cb, rcb="slow" if cb == "slow" else "ret", tail=vloop.RECOVERY_TAIL))
+    for i, s in enumerate(base):
+        s["exc_rot"] = ctx.seed + i
     bobs = vloop.run_batch([dict(s) for s in base], _repo(), wall=6, procs=3)
     for s, o in zip(base, bobs):
         specs.append(s)
         meta.append({"client": s["client"], "cb": s["cb"], "fault": None, "at": None, "obs": o})
-    faults = ["eof", "reset", "writeerr", "garbage_eof", "refuse3_eof", "refuse7_reset"]
+    faults = ["eof", "reset", "writeerr", "garbage_eof", "undecodable_eof", "refuse3_eof", "refuse7_reset"]
     if thorough:
         faults += ["drainerr"]
     inj = []
@@ -73,6 +77,8 @@ def fault_specs(ctx):
                 sp = dict(sf)
                 sp["inject"] = {"at": at, "ops": vloop.FAULTS[f]}
                 inj.append((sp, {"client": s["client"], "cb": s["cb"], "fault": f, "at": at}))
+    for i, (sp, _) in enumerate(inj):        # which exception class the failing attempts raise: rotates with run and seed
+        sp["exc_rot"] = ctx.seed + i
     iobs = vloop.run_batch([dict(sp) for sp, _ in inj], _repo(), wall=6, procs=3)
     for (sp, m), o in zip(inj, iobs):
         m["obs"] = o
